@@ -673,7 +673,7 @@ def main(argv):
     rows = covering_array(a.seed)
     nw = harness.nworkers()
     jobs1 = [{"rows": rows[i::nw]} for i in range(nw) if rows[i::nw]]
-    nproc, nex = (16, 30) if a.tier == "quick" else (64, 300)
+    nproc, nex = (16, 50) if a.tier == "quick" else (64, 300)
     jobs2 = [{"hseed": core.h64(a.seed, "c27", i) % (2**31), "examples": nex} for i in range(nproc)]
     r1 = harness.pmap(run_rows, jobs1, chunk=1, hang_s=1500)
     r2 = harness.pmap(hunt, jobs2, chunk=1, hang_s=1500)
